@@ -82,7 +82,7 @@ def expr(rng, ent, names):
     for k, (a, nm) in enumerate(parts):
         out.append(term(rng, a, nm, k == 0))
         if rng.chance(0.12):
-            out.append(rng.choice(["\n   ", "\n", " \\ a comment in the middle\n  "]))
+            out.append(rng.choice(["\n   ", "\n", " \\ a comment in the middle\n  ", " \\ note: a colon, st and <= 3 in a comment\n  "]))
     return " ".join(out)
 
 
@@ -129,7 +129,7 @@ def render_lp(rng, lp, cn, rn, ints=()):
             rows.append((rn[i] if named else None, "G", F(rhs), ent))
             rows.append((None, "L", F(rhs) + F(rg), ent))
         else:
-            lines.append(head + expr(rng, ent, cn) + " " + rng.choice(SENSES[s]) + " " + signed(rng, rhs) + rng.choice(["", "", "   \\ trailing comment"]))
+            lines.append(head + expr(rng, ent, cn) + " " + rng.choice(SENSES[s]) + " " + signed(rng, rhs) + rng.choice(["", "", "   \\ trailing comment", "  \\ ratio: 3/4 (comment with a colon)", " \\bounds: x >= 1"]))
             rows.append((rn[i] if named else None, s, F(rhs), ent))
         if rng.chance(0.1):
             lines.append("")
